@@ -22,6 +22,16 @@ def main(argv=None):
     from .core import Ctx
     ctx = Ctx(prop, mod.LEVEL, tier=args.tier, seed=seed, replay_mode=bool(args.replay))
     ctx.only = args.only
+    # overall watchdog: a check that hangs is a broken check, never a silent pass
+    import threading
+    budget = float(os.environ.get('PWV_BUDGET_S') or (1500 if args.tier == 'quick' else 6 * 3600))
+
+    def _timeout():
+        print('[%s] CHECK-BROKEN: wall-clock budget of %ds exhausted (harness hang)' % (prop, budget), flush=True)
+        os._exit(3)
+    wd = threading.Timer(budget, _timeout)
+    wd.daemon = True
+    wd.start()
     if args.replay:
         with open(args.replay) as f:
             rec = json.load(f)
